@@ -302,44 +302,51 @@ theorem innerStep_inv {ds : DSetData} (h : ValidSet ds) {i : Nat} (hi : i < ds.d
     · rw [c]; exact hs
     · exact inv.seen_low x hx1 (by omega)
   · rw [if_neg hs]
-    have hrow : (st.index.getD i #[]).size = st.seen.size := by
-      rw [inv.row_size i hi, inv.seen_size]
+    have hrow0 := inv.row_size i hi
+    have hseenlt := inv.seen_lt
+    generalize st.index.getD i #[] = row at hrow0 hseenlt ⊢
+    have hrow : row.size = st.seen.size := by rw [hrow0, inv.seen_size]
     obtain ⟨f1, f2, _, f4, f5, f6, f7⟩ := collectLoop_frame ds i (d0 + 1) st.rs.size (ds.size + 1) (d0 + 1) 0 false
-      (st.index.getD i #[]) st.seen hrow
+      row st.seen hrow
     obtain ⟨k, hk1, hk2, hk⟩ := exists_return (stepF_range h hi) (stepF_inj h hi)
       (show 1 ≤ d0 + 1 by omega) (show d0 + 1 ≤ ds.size by omega)
     have hmark := collectLoop_marks ds i (d0 + 1) st.rs.size (ds.size + 1) (d0 + 1) 0 false
-      (st.index.getD i #[]) st.seen k hk1 (by omega) hk (by rw [inv.seen_size]; omega)
+      row st.seen k hk1 (by omega) hk (by rw [inv.seen_size]; omega)
     have hiidx : i < st.index.size := by rw [inv.index_size]; exact hi
+    generalize collectLoop ds i (d0 + 1) st.rs.size (ds.size + 1) (d0 + 1) 0 false row st.seen = r
+      at f1 f2 f4 f5 f6 f7 hmark ⊢
     refine
-      { index_size := by simp only [Array.size_setIfInBounds]; exact inv.index_size
-        row_size := ?_, done := ?_, rs_pos := ?_, seen_size := by simp only []; rw [f2, inv.seen_size]
+      { index_size := by dsimp only; rw [Array.size_setIfInBounds]; exact inv.index_size
+        row_size := ?_, done := ?_, rs_pos := ?_, seen_size := by dsimp only; rw [f2, inv.seen_size]
         seen_lt := ?_, seen_low := ?_ }
     · intro j hj
-      simp only [getD_setG]
+      dsimp only
+      rw [getD_setG]
       split
-      · rw [f1]; exact inv.row_size i hi
+      · rw [f1]; exact hrow0
       · exact inv.row_size j hj
     · intro j d hj hd1 hd2
-      simp only [getD_setG, Array.size_push]
-      rw [if_neg (by omega)]
+      dsimp only
+      rw [getD_setG, if_neg (by omega), Array.size_push]
       exact Nat.lt_succ_of_lt (inv.done j d hj hd1 hd2)
     · intro k hk
-      simp only [Array.size_push] at hk
-      simp only [getD_push]
+      dsimp only at hk ⊢
+      rw [Array.size_push] at hk
+      rw [getD_push]
       split
       · exact f4 (by omega)
       · exact inv.rs_pos k (by omega)
     · intro x hx1 hx2 hx
-      simp only [getD_setG, Array.size_push]
-      rw [if_pos ⟨rfl, hiidx⟩]
+      dsimp only at hx ⊢
+      rw [getD_setG, if_pos ⟨rfl, hiidx⟩, Array.size_push]
       rcases f7 x hx with h' | h'
-      · have := inv.seen_lt x hx1 hx2 h'
+      · have := hseenlt x hx1 hx2 h'
         rcases f5 x with h'' | h''
         · rw [h'']; omega
         · rw [h'']; omega
       · rw [h']; omega
     · intro x hx1 hx2
+      dsimp only
       by_cases c : x = d0 + 1
       · rw [c]; exact hmark
       · exact f6 x (inv.seen_low x hx1 (by omega))
@@ -353,7 +360,10 @@ theorem outerStep_inv {ds : DSetData} (h : ValidSet ds) {i : Nat} (hi : i < ds.d
       seen_size := by simp
       seen_lt := by
         intro x _ _ hx
-        simp [Array.getD_eq_getD_getElem?, Array.getElem?_replicate] at hx
+        exfalso
+        dsimp only at hx
+        rw [Array.getD_eq_getD_getElem?, Array.getElem?_replicate] at hx
+        split at hx <;> simp at hx
       seen_low := by intro x h1 h2; omega }
     (fun k s hk hp => innerStep_inv h hi hk hp)
   refine { index_size := hfin.index_size, row_size := hfin.row_size, done := ?_, rs_pos := hfin.rs_pos }
